@@ -98,6 +98,10 @@ Fixpoint hist_run (top : Z) (steps : list draw_input) : list draw_obs :=
       let '(top', r) := sdraw ws top maxw maxh in dres_obs r :: hist_run top' t
   end.
 
+(* constraints are uint16 *)
+Definition in_u16 (inp : draw_input) : Prop :=
+  let '(_, maxw, maxh) := inp in 0 <= maxw < 65536 /\ 0 <= maxh < 65536.
+
 (* the value of [top] before each step *)
 Fixpoint hist_tops (top : Z) (steps : list draw_input) : list Z :=
   match steps with
